@@ -49,6 +49,22 @@ func (c *FCtx) bodyEnv(st *State, pos token.Pos) *CEnv {
 					}
 				}
 			}
+			// the loop has been rewritten as `for i := 0; i < len(x); i++`: its counter is the variable of the init statement
+			for n, ord := range fi.Loops {
+				fs, isFor := n.(*ast.ForStmt)
+				if !isFor || fmt.Sprintf("range_%d", ord) != name || fs.Init == nil {
+					continue
+				}
+				if as, ok := fs.Init.(*ast.AssignStmt); ok && as.Tok == token.DEFINE && len(as.Lhs) == 1 {
+					if id, ok := as.Lhs[0].(*ast.Ident); ok {
+						if obj := info.Defs[id]; obj != nil {
+							if cid, ok := s.vars[obj]; ok {
+								return s.cells[cid], true
+							}
+						}
+					}
+				}
+			}
 			return nil, false
 		}
 		if scope == nil {
